@@ -55,10 +55,15 @@ let req_of = function
     (* the way the body is delivered does not enter the model: an empty body is an
        allprop request however it arrives *)
     bump ("delivery_" ^ (match dl with [A d] -> d | _ -> "exact"));
-    let dh = (match dh with "absent" -> DHAbsent | "0" -> DH0 | "1" -> DH1 | "inf" -> DHInf | "bad" -> DHBad
-                            | _ -> raise (Parse_error "depth")) in
-    let ct = (match ct with "none" -> CTNone | "xml" | "xml2" -> CTXml | "other" -> CTOther
-                            | _ -> raise (Parse_error "ctype")) in
+    (* a spelling tag after ':' says how the header was written; the class before it is what
+       the handler makes of it (the harness computes it with the real parser) *)
+    let cls a = (match String.index_opt a ':' with
+                 | Some i -> bump ("spelled_" ^ String.sub a (i + 1) (String.length a - i - 1)); String.sub a 0 i
+                 | None -> a) in
+    let dh = (match cls dh with "absent" -> DHAbsent | "0" -> DH0 | "1" -> DH1 | "inf" -> DHInf | "bad" -> DHBad
+                                | _ -> raise (Parse_error "depth")) in
+    let ct = (match cls ct with "none" -> CTNone | "xml" | "xml2" -> CTXml | "other" -> CTOther
+                                | _ -> raise (Parse_error "ctype")) in
     let bd = (match b with
               | A "empty" -> BEmpty | A "blank" -> BBlank | A "other" -> BOtherRoot | A "malformed" -> BMalformed
               | pf -> BPropfind (pf_of pf)) in
@@ -130,6 +135,23 @@ let judge ?(by_rid=false) sx model spec obs =
     if o.ob_responses <> [] then note_nontrivial (show (List.hd sx));
     verdict ~agree:(answer_agrees by_rid model o) ~spec:(spec o) ~kf:"-" ~detail:("model: " ^ show_res model)
 
+let judge_hier sx srv hx tg rq obs =
+      let s = (match srv with A "cal" -> bump "kind_caldav"; CalDAV | A "card" -> bump "kind_carddav"; CardDAV
+                            | _ -> raise (Parse_error "server")) in
+      let (h, ptrail) = hier_of hx and (dh, ct, bd) = req_of rq in
+      form_stat (dh, ct, bd);
+      let hprefix = spell_prefix h.h_ps ptrail and b = backend_of h in
+      (match target_of tg with
+       | Segs (rs, trailing) ->
+         let path = req_path h.h_ps rs trailing in
+         let in_q = hier_ok h && segs_ok rs in
+         bump (Printf.sprintf "level_%d" (min 5 (List.length rs)));
+         judge sx (hier_model s hprefix b path ct bd dh)
+           (fun o -> if in_q then hier_spec s h rs trailing ct bd dh o else true) obs
+       | Path path ->
+         bump "outside_quantifier";
+         judge sx (hier_model s hprefix b path ct bd dh) (fun _ -> true) obs)
+
 let () =
   run_file Sys.argv.(1) (fun _ sx ->
     match sx with
@@ -158,22 +180,13 @@ let () =
        | Path path ->
          bump "outside_quantifier";
          judge ~by_rid:true sx (dav_model t path ct bd dh) (fun _ -> true) obs)
-    | [L [A "hier"; srv; hx; tg; rq]; obs] ->
-      let s = (match srv with A "cal" -> bump "kind_caldav"; CalDAV | A "card" -> bump "kind_carddav"; CardDAV
-                            | _ -> raise (Parse_error "server")) in
-      let (h, ptrail) = hier_of hx and (dh, ct, bd) = req_of rq in
-      form_stat (dh, ct, bd);
-      let hprefix = spell_prefix h.h_ps ptrail and b = backend_of h in
-      (match target_of tg with
-       | Segs (rs, trailing) ->
-         let path = req_path h.h_ps rs trailing in
-         let in_q = hier_ok h && segs_ok rs in
-         bump (Printf.sprintf "level_%d" (min 5 (List.length rs)));
-         judge sx (hier_model s hprefix b path ct bd dh)
-           (fun o -> if in_q then hier_spec s h rs trailing ct bd dh o else true) obs
-       | Path path ->
-         bump "outside_quantifier";
-         judge sx (hier_model s hprefix b path ct bd dh) (fun _ -> true) obs)
+    | [L [A "hier"; srv; hx; tg; rq]; obs] -> judge_hier sx srv hx tg rq obs
+    (* a history on one shared Handler: the last step, judged on its own inputs *)
+    | [L (A "hseq" :: srv :: steps); obs] ->
+      bump (Printf.sprintf "history_length_%d" (List.length steps));
+      (match List.rev steps with
+       | L [A "hstep"; hx; tg; rq] :: _ -> judge_hier sx srv hx tg rq obs
+       | _ -> raise (Parse_error "hstep"))
     | [L [A "principal"; cup; L (A "hs" :: hs); p; rq]; obs] ->
       bump "kind_principal";
       let homesets = List.map (function L [ns; local; hp] -> ((str ns, str local), str hp) | _ -> raise (Parse_error "hs")) hs in
